@@ -105,7 +105,7 @@ Check(r) ==
          ELSE IF ~SpansInRange(b, endpos) THEN Flag(r, "model.spans")
          ELSE IF r.res = "err" /\ ~(r.spans_ok /\ r.render_ok) THEN Flag(r, "spans")
          ELSE IF r.res = "ok" /\ ~a THEN Flag(r, "accept.invalid")
-         ELSE IF r.res = "err" /\ a THEN Flag(r, "reject.valid")
+         ELSE IF r.res = "err" /\ a THEN Flag(r, IF r.has_ref THEN "display.fixpoint" ELSE "reject.valid")
          ELSE IF (r.res = "ok") # b.ok THEN Flag(r, "verdict")
          \* both reject: are the locations the same?  (a private detail: reported as err.spans, owned by no property)
          ELSE IF ~b.ok THEN (IF b.at # r.err_spans THEN Flag(r, "err.spans") ELSE TRUE)
@@ -115,6 +115,8 @@ Check(r) ==
          ELSE IF b.virtuals # r.dump.virtuals THEN Flag(r, "ast.virtuals")
          ELSE IF b.expected_inputs # r.dump.expected_inputs \/ b.read_outputs # r.dump.read_outputs THEN Flag(r, "ast.facts")
          ELSE IF r.has_truth /\ RowLines(b.stmts) # r.row_lines THEN Flag(r, "lines.truth")
+         \* print -> parse: the text is what Display printed for the statements r.ref_stmts
+         ELSE IF r.has_ref /\ NoLines(b.stmts) # NoLines(r.ref_stmts) THEN Flag(r, "display.fixpoint")
          ELSE TRUE
       /\ IF r.group = 0 THEN UNCHANGED grp
          ELSE LET n == Normal(all)
